@@ -38,7 +38,7 @@ def one(f):
     else:
         for q in quals(ast.parse(src)):
             s2 = {"rename": transforms.rename_locals, "commute": transforms.commute_mult, "swapcmp": transforms.swap_compare,
-                  "flipif": transforms.flip_if, "tempret": transforms.temp_return, "tempattr": transforms.temp_attr_store}[kind](s, q)
+                  "flipif": transforms.flip_if, "tempret": transforms.temp_return, "tempattr": transforms.temp_attr_store, "inline": transforms.inline_alias}[kind](s, q)
             if s2 is not None:
                 s = s2
                 n += 1
